@@ -48,6 +48,7 @@ class Exec(ExprMixin):
     def oblige(self, name, st: State, goal, kind, note=''):
         if self.probing:
             return
+        goal = as_goal(goal)
         if isinstance(goal, bool):
             goal = z3.BoolVal(goal)
         if z3.is_true(goal):
